@@ -75,7 +75,7 @@ pub(crate) fn keyword<'a>(t: &'a str) -> impl FnMut(Span<'a>) -> IResult<Span<'a
         let (s, x) = map(
             ws(alt((
                 all_consuming(map(tag(t), into_locate)),
-                terminated(map(tag(t), into_locate), peek(none_of(AZ09_))),
+                terminated(map(tag(t), into_locate), peek(none_of(AZ09_DOLLAR))),
             ))),
             |x| Keyword { nodes: x },
         )(s)?;
@@ -91,7 +91,7 @@ pub(crate) fn keyword<'a>(t: &'a str) -> impl FnMut(Span<'a>) -> IResult<Span<'a
             let (s, x) = map(
                 ws(alt((
                     all_consuming(map(tag(t), into_locate)),
-                    terminated(map(tag(t), into_locate), peek(none_of(AZ09_))),
+                    terminated(map(tag(t), into_locate), peek(none_of(AZ09_DOLLAR))),
                 ))),
                 |x| Keyword { nodes: x },
             )(s)?;
